@@ -75,7 +75,7 @@ def floors(tier):
                         "unreachable_pair": 200, "isolated_node": 50, "tie": 100, "zero_distance_pair": 100,
                         "cut_equal": 500, "cut_below_some": 500, "cut_above_all": 500, "cut_default": 500,
                         "nodes_10_to_12": 50 if q else 500, "edges_25_to_40": 30 if q else 300,
-                        "network_of_hundreds_of_nodes": 4, "cut_given_as_numpy.int64": 100,
+                        "network_of_hundreds_of_nodes": 4, "edges_reweighted_in_place": 300, "cut_given_as_numpy.int64": 100,
                         "cut_given_as_numpy.float32": 100, "cut_given_as_int": 100},
             "distinct_nontrivial": 2000 if q else 50000}
 
@@ -434,6 +434,33 @@ def run_case(case, ctx):
                                         "from it, is not the minimum over permitted walks", "s": ids[a2], "t": ids[b2],
                                 "got": r, "true_distance": d})
             cls.add("sub_network_queried")
+    # the caller re-weights the edges of THIS network in place (Edge.weight is how weights are given: lengths replaced
+    # by travel times, a closed street made expensive) and goes on asking, first from the source of the last request
+    if 2 <= n <= 40 and len(spec["edges"]) >= 1 and case["ord"] % 3 == 1:
+        hr = random.Random(case["ord"] + 13)
+        s0 = hr.randrange(n)
+        M.call(net.shortest_distance, ids[s0], ids[hr.randrange(n)])
+        W = [e[2] for e in spec["edges"]]
+        W2 = (W[1:] + W[:1]) if len(set(W)) > 1 else [w + 1.0 + k for k, w in enumerate(W)]
+        spec2 = dict(spec)
+        spec2["edges"] = [tuple(e[:2]) + (w2,) + tuple(e[3:]) for e, w2 in zip(spec["edges"], W2)]
+        for eid, w2 in zip(_e, W2):
+            net.EDGES[eid].weight = w2
+        D2 = G.floyd_warshall(n, G.arcs(spec2))
+        pairs = [(s0, t) for t in range(n)] + [(hr.randrange(n), hr.randrange(n)) for _ in range(8)]
+        for (a, b) in pairs[:14]:
+            r = M.call(net.shortest_distance, ids[a], ids[b])
+            ctx.monitor("reweighted_in_place.pair_vs_floyd_warshall")
+            d = D2[a][b]
+            ok = (not M.is_raised(r)) and isinstance(r, (int, float)) and ((r < 0) if d == G.INF else (r >= 0 and G.close(r, d)))
+            if not ok:
+                w = bad({"what": "distance asked after the caller changed the weights of the network's edges in place is "
+                                 "not the minimum over permitted walks for the weights as they are now",
+                         "s": ids[a], "t": ids[b], "got": r, "true_distance_now": d, "true_distance_before": D[a][b],
+                         "weights_now": W2})
+                return w
+        cls.add("edges_reweighted_in_place")
+        D, spec = D2, spec2               # what the "again" request below is judged against
     # prepare / prepared_shortest_distance on fresh networks (DISTANCES accumulates by design)
     for cut in prep:
         net2, ids2, nodes2, _e2 = G.build_network(spec)
